@@ -1495,7 +1495,7 @@ class Interp:
                 return fn.fn(self, *args, **kwargs)
             except TypeError as e:
                 # the call form (an extra positional / keyword argument) is one the contract does not state: outside the model
-                if fn.name in str(e) or "<lambda>" in str(e) or "got an unexpected keyword argument" in str(e) or "positional argument" in str(e):
+                if "got an unexpected keyword argument" in str(e) or "positional argument" in str(e) or "got multiple values for" in str(e):
                     raise EngineError(f"{fn.name}: call form without a contract ({e})")
                 raise
         if isinstance(fn, BoundLib):
